@@ -8,21 +8,21 @@ PROP = 'C11'
 LEVEL = 'exploration'
 RULE = ('random hierarchies (chains to depth 5, diamonds, classes skipping the declaration) redeclaring one Parameter '
         'with a random subset of explicit attributes per level (default, bounds, inclusive_bounds, softbounds, step, regex, '
-        'length, doc, label, precedence, constant, readonly, allow_None, instantiate, per_instance, allow_refs, nested_refs, '
+        'length, class_, is_instance, allow_named, doc, label, precedence, constant, readonly, allow_None, instantiate, per_instance, allow_refs, nested_refs, '
         'pickle_default_value), values chosen to conflict or not with inherited ones, Parameter type changes along the way '
         '(Parameter/Number/Integer/String/Boolean/Tuple/List), and the same through add_parameter; every slot of the created '
         "class's Parameter is compared with an independent resolver and creation must fail iff the merged default is "
         'rejected by the merged constraints (None re-checked only after a type change). non-trivial = >=2 declaring levels '
         'with an unspecified slot below a specifying one; distinct by (shape, type path, specified-subset pattern, outcome)')
 PARAMS = {
-    'quick': dict(cases=2500, shards=8),
+    'quick': dict(cases=6000, shards=8),
     'thorough': dict(cases=120000, shards=16),
 }
 ASSUMPTIONS = [
     "the type's slot defaults (Parameter subclass _slot_defaults tables) are read from the library: they are the 'type default' the statement refers to",
     'declarations that cannot even be constructed standalone (e.g. Number(bounds=(6, 10)) whose type default 0.0 is rejected) '
     'never reach class creation; they are counted and skipped',
-    'Selector-like types (objects bookkeeping) and callable (dynamic) defaults are not generated',
+    'Selector/ListSelector (objects bookkeeping with computed defaults) and callable (dynamic) defaults are not generated',
 ]
 REQUIRED = {'slot_checks': 20000, 'classes_created': 3000, 'creation_failures_expected': 100, 'type_changes': 200}
 
@@ -39,10 +39,16 @@ COMMON = ['default', 'doc', 'precedence', 'constant', 'readonly', 'allow_None', 
           'allow_refs', 'nested_refs', 'pickle_default_value', 'label']
 EXTRA = {'Parameter': [], 'Boolean': [], 'Number': ['bounds', 'inclusive_bounds', 'softbounds', 'step'],
          'Integer': ['bounds', 'inclusive_bounds', 'softbounds', 'step'], 'String': ['regex'], 'Tuple': ['length'],
-         'List': ['bounds']}
-TYPE_MOVES = {'Parameter': ['Number', 'String', 'Boolean', 'Tuple', 'List', 'Integer'], 'Number': ['Integer', 'Parameter', 'String'],
-              'Integer': ['Number', 'Parameter'], 'String': ['Parameter', 'Number'], 'Boolean': ['Parameter', 'Integer'],
-              'Tuple': ['Parameter', 'List'], 'List': ['Parameter', 'Tuple']}
+         'List': ['bounds'], 'Magnitude': ['bounds', 'inclusive_bounds', 'softbounds', 'step'], 'NumericTuple': ['length'],
+         'Range': ['length', 'bounds', 'inclusive_bounds', 'softbounds', 'step'], 'Color': ['allow_named'],
+         'ClassSelector': ['class_', 'is_instance'], 'Dict': ['is_instance']}
+TYPE_MOVES = {'Parameter': ['Number', 'String', 'Boolean', 'Tuple', 'List', 'Integer', 'Color', 'ClassSelector', 'Range', 'Dict'],
+              'Number': ['Integer', 'Parameter', 'String', 'Magnitude'],
+              'Integer': ['Number', 'Parameter'], 'String': ['Parameter', 'Number', 'Color'], 'Boolean': ['Parameter', 'Integer'],
+              'Tuple': ['Parameter', 'List', 'NumericTuple'], 'List': ['Parameter', 'Tuple'], 'Magnitude': ['Number', 'Parameter'],
+              'NumericTuple': ['Range', 'Tuple', 'Parameter'], 'Range': ['NumericTuple', 'Parameter', 'Tuple'],
+              'Color': ['Parameter', 'String'], 'ClassSelector': ['Parameter', 'Dict'], 'Dict': ['ClassSelector', 'Parameter']}
+REQUIRED_KW = {'ClassSelector': 'class_'}      # constructor arguments that cannot be left out
 
 VALUES = {
     ('Number', 'default'): [0.5, 3, 7.5, -2, 11, None, 5.0],
@@ -52,6 +58,17 @@ VALUES = {
     ('Tuple', 'default'): [(1, 2), (1, 2, 3), None, (7, 8)],
     ('List', 'default'): [[1], [1, 2, 3], [], None],
     ('Parameter', 'default'): [0.5, 'abc', None, (1, 2), [1], 4, True],
+    ('Magnitude', 'default'): [0.5, 1.0, 0.0, 3, None, 0.25],
+    ('NumericTuple', 'default'): [(1, 2), (1, 2, 3), None, (7.5, 8), ('a', 1)],
+    ('Range', 'default'): [(1, 2), (0, 20), None, (3, 4), (5, 1)],
+    ('Color', 'default'): ['#aabbcc', 'red', None, '#fff', 'nocolor'],
+    ('ClassSelector', 'default'): [3, 'abc', None, 2.5, int, (1, 2)],
+    ('Dict', 'default'): [{'a': 1}, {}, None],
+    ('Magnitude', 'bounds'): [(0, 10), (0.0, 1.0), (0.3, None), None],
+    ('Range', 'bounds'): [(0, 10), (2, None), (None, 4), None, (0, 5)],
+    'class_': [int, str, (int, str), (int, float), tuple],
+    'is_instance': [True, False],
+    'allow_named': [True, False],
     ('Number', 'bounds'): [(0, 10), (5, None), (None, 4), (0, 1), None, (0, 5)],
     ('Integer', 'bounds'): [(0, 10), (5, None), (None, 4), (0, 1), None, (0, 5)],
     ('List', 'bounds'): [(0, 2), (1, None), (0, None), (2, 3)],
@@ -76,10 +93,15 @@ def slots_of(tname):
 def gen_explicit(rng, tname):
     exp = {}
     for s in slots_of(tname):
-        heavy = s in ('default', 'bounds', 'inclusive_bounds', 'regex', 'length', 'allow_None')
+        if (tname == 'Dict' and s == 'is_instance') or (tname == 'Range' and s == 'length'):
+            continue        # (a Dict of classes is not a meaningful declaration; the slot can still be inherited)
+        heavy = s in ('default', 'bounds', 'inclusive_bounds', 'regex', 'length', 'allow_None', 'instantiate')
         if rng.random() < (0.4 if heavy else 0.15):
             vals = VALUES.get((tname, s)) or VALUES.get(s)
             exp[s] = rng.choice(vals)
+    req = REQUIRED_KW.get(tname)
+    if req and req not in exp:
+        exp[req] = rng.choice(VALUES[req])
     return exp
 
 
@@ -110,7 +132,9 @@ def own_initial(param, tname, exp):
         own['instantiate'] = exp['instantiate']
     else:
         own['instantiate'] = type_default(T, 'instantiate')
-    if tname == 'Tuple':
+    if tname == 'Range':
+        own['length'] = 2       # a range always declares two ends
+    if tname in ('Tuple', 'NumericTuple'):
         if 'default' in exp and exp['default']:
             own['length'] = len(exp['default'])
     return own
@@ -143,7 +167,7 @@ def resolve(param, tname, exp, ancestors):
             else:
                 merged[s] = dv
     for s, fn in deferred:
-        if tname == 'Tuple' and s == 'length':
+        if tname in ('Tuple', 'NumericTuple') and s == 'length':
             merged[s] = len(merged['default']) if isinstance(merged.get('default'), tuple) else UNDEF
         else:
             merged[s] = UNDEF
@@ -151,11 +175,21 @@ def resolve(param, tname, exp, ancestors):
     return merged, type_changed
 
 
+def spec_type(tname, merged):
+    # a Magnitude whose bounds were explicitly removed is a plain Number for the purpose of validation; a Dict is a
+    # ClassSelector of dict (and may inherit is_instance from a ClassSelector ancestor)
+    if tname == 'Dict':
+        return 'ClassSelector'
+    return 'Number' if tname == 'Magnitude' and merged.get('bounds') is None else tname
+
+
 def cfg_of(tname, merged):
     cfg = dict(allow_None=merged.get('allow_None'))
-    for k in ('bounds', 'inclusive_bounds', 'regex', 'length', 'step'):
+    for k in ('bounds', 'inclusive_bounds', 'regex', 'length', 'step', 'class_', 'is_instance', 'allow_named'):
         if k in merged and merged[k] is not UNDEF:
             cfg[k] = merged[k]
+    if tname == 'Dict':
+        cfg['class_'] = dict
     return cfg
 
 
@@ -202,10 +236,12 @@ def run_case(idx, rng, P, rep):
             classes.append(dict(cls=cls, held=None))
             desc['levels'].append(dict(level=ci, declares=False))
             continue
-        if ancestors and rng.random() < 0.3:
+        if ancestors and rng.random() < (0.55 if shape == 'diamond' and ci == 3 else 0.3):
             tname = rng.choice(TYPE_MOVES[tname])
         T = getattr(param, tname)
         exp = gen_explicit(rng, tname)
+        if shape == 'diamond' and ci in (1, 2) and rng.random() < 0.4:
+            exp['instantiate'] = rng.random() < 0.5     # the two branches of a diamond often disagree on instantiate
         level = dict(level=ci, type=tname, explicit={k: repr(v) for k, v in exp.items()}, via='add_parameter' if via_add else 'class body')
         desc['levels'].append(level)
         kw = dict(exp)
@@ -220,7 +256,7 @@ def run_case(idx, rng, P, rep):
         merged, type_changed = resolve(param, tname, exp, ancestors)
         if type_changed:
             rep.count('type_changes')
-        verdict = spec.accepts(tname, cfg_of(tname, merged), merged['default'])
+        verdict = spec.accepts(spec_type(tname, merged), cfg_of(tname, merged), merged['default'])
         must_fail = verdict == spec.REJECT and (merged['default'] is not None or type_changed)
         may_fail = verdict == spec.UNSPEC
         if tname == 'Integer' and merged.get('step') is not None and not isinstance(merged['step'], int):
@@ -240,10 +276,10 @@ def run_case(idx, rng, P, rep):
             rep.count('creation_failures_expected')
         if failed is not None and not must_fail and not may_fail:
             sub = ''
-            if tname == 'Tuple' and merged['default'] is None and isinstance(failed, TypeError) and \
+            if tname in ('Tuple', 'NumericTuple', 'Range') and merged['default'] is None and isinstance(failed, TypeError) and \
                     not any('length' in a['slots'] for a in ancestors) and 'length' not in exp:
                 sub = '/length-computed-from-None-default'
-            viol(f'creation-failed-unexpectedly/{tname}{sub}', f'level {ci} {tname}({exp}) merged default {merged["default"]!r} satisfies '
+            viol(f'creation-failed-unexpectedly/{"Tuple" if sub else tname}{sub}', f'level {ci} {tname}({exp}) merged default {merged["default"]!r} satisfies '
                  f'merged constraints {cfg_of(tname, merged)} but creation raised {type(failed).__name__}: {str(failed)[:200]}')
         if failed is None and must_fail:
             viol(f'invalid-default-accepted/{tname}' + ('/type-changed' if type_changed else ''),
